@@ -270,3 +270,86 @@ Definition mutate_editing_a_copy (idx_str : ctype -> nat -> string) (fresh : str
          containers := containers q; inits := inits p; volumes := volumes q |}
   | _ => mutate idx_str fresh p
   end.
+
+(** * The number of devices the binder reads, and the GPU-group labels it leaves on the pod
+      pkg/common/resources/gpu_sharing.go  GetNumGPUFractionDevices, IsMultiFraction,
+        GetMultiFractionGpuGroupLabel, GetGpuGroups
+      pkg/binder/binding/binder.go  reserveGPUs (one ReserveGpuDevice per selected GPU group)
+      pkg/binder/binding/resourcereservation  ReserveGpuDevice -> updatePodGPUGroup
+    The reservation pod of every group exists and reports its device index (how group names
+    become device indexes is C17's subject); what is modelled here is the label patch. *)
+
+(** GetNumGPUFractionDevices: (n, nil) | fractionDevicesAnnotationNotFound | a ParseInt error *)
+Inductive ndev :=
+| NdOk (n : Z)
+| NdNotFound
+| NdParseError.
+
+Definition binder_num_devices (p : gpod) : ndev :=
+  match a_numdev p with
+  | None => if requests_gpu_fraction p then NdOk 1%Z else NdNotFound
+  | Some s => match parse_int s with
+              | Some n => NdOk n
+              | None => NdParseError
+              end
+  end.
+
+(** IsMultiFraction: [None] = it returns an error (the count annotation does not parse). *)
+Definition is_multi_fraction (p : gpod) : option bool :=
+  match binder_num_devices p with
+  | NdOk n => Some (1 <? n)%Z
+  | NdNotFound => Some false
+  | NdParseError => None
+  end.
+Definition binder_is_multi (p : gpod) : bool :=
+  match is_multi_fraction p with Some b => b | None => false end.
+
+Definition gpu_group_label : string := "runai-gpu-group".
+Definition multi_group_prefix : string := "runai-gpu-group/".
+
+Fixpoint has_prefix (pre s : string) : bool :=
+  match pre, s with
+  | EmptyString, _ => true
+  | String a r, String b r' => Ascii.eqb a b && has_prefix r r'
+  | String _ _, EmptyString => false
+  end.
+
+Definition labels := list (string * string).
+
+(** updatePodGPUGroup for one group, on the labels the in-memory pod carries so far
+    ([ism] = the answer of IsMultiFraction; [None] = error, nothing is patched). *)
+Definition label_group (ism : option bool) (ls : labels) (g : string) : option labels :=
+  match ism with
+  | None => None
+  | Some true => Some (set_key (multi_group_prefix ++ g) g ls)
+  | Some false => Some (set_key gpu_group_label g ls)
+  end.
+
+(** reserveGPUs: the selected groups in order, on the same pod object; the first error ends the loop. *)
+Fixpoint label_groups (ism : option bool) (ls : labels) (groups : list string) : option labels :=
+  match groups with
+  | [] => Some ls
+  | g :: r => match label_group ism ls g with
+              | Some ls' => label_groups ism ls' r
+              | None => None
+              end
+  end.
+
+Definition labels_after_binding_with (ism : gpod -> option bool) (groups : list string) (p : gpod) : option labels :=
+  label_groups (ism p) [] groups.
+Definition labels_after_binding (groups : list string) (p : gpod) : option labels :=
+  labels_after_binding_with is_multi_fraction groups p.
+
+(** GetGpuGroups (what NewTaskInfo reads at the next snapshot when there is no BindRequest any more):
+    the plain label first, then the value of every label whose key starts with the multi prefix. *)
+Definition groups_of_labels (ls : labels) : list string :=
+  ((match lookup gpu_group_label ls with Some g => [g] | None => [] end)
+   ++ map snd (filter (fun kv => has_prefix multi_group_prefix (fst kv)) ls))%list.
+
+(** NOT the code: IsMultiFraction that first asks for the gpu-fraction annotation (seeded/C19-5).
+    Used by the witness in Properties/C19.v only. *)
+Definition is_multi_requiring_fraction (p : gpod) : option bool :=
+  match a_fraction p with
+  | None => Some false
+  | Some _ => is_multi_fraction p
+  end.
